@@ -232,3 +232,85 @@ def walk_shallow(node: ast.AST):
         first = False
         yield n
         stack.extend(reversed(list(ast.iter_child_nodes(n))))
+
+
+# ---------------------------------------------------------------------------
+def enumerate_paths(body, events, max_paths: int = 4000):
+    """All acyclic paths through a structured statement list (each loop body is taken zero
+    times or once), as ``(list of events, exit kind)`` with exit kind in
+    {'return', 'raise', 'fall'}.  ``events(node)`` lists the events of one simple statement
+    or header expression.  Raises ``OverflowError`` beyond ``max_paths``."""
+    def seq(stmts, prefixes):
+        # prefixes: list of (events, status) with status None = still running
+        for st in stmts:
+            running = [(e, s) for e, s in prefixes if s is None]
+            done = [(e, s) for e, s in prefixes if s is not None]
+            if not running:
+                return prefixes
+            new = []
+            for e, _ in running:
+                new.extend(one(st, e))
+            prefixes = done + new
+            if len(prefixes) > max_paths:
+                raise OverflowError('too many paths')
+        return prefixes
+
+    def one(st, e):
+        if isinstance(st, ast.Return):
+            return [(e + list(events(st)), 'return')]
+        if isinstance(st, ast.Raise):
+            return [(e + list(events(st)), 'raise')]
+        if isinstance(st, ast.Break):
+            return [(e, 'break')]
+        if isinstance(st, ast.Continue):
+            return [(e, 'continue')]
+        if isinstance(st, ast.If):
+            e2 = e + list(events(st.test))
+            c = _const_truth(st.test)
+            out = []
+            if c is not False:
+                out += seq(st.body, [(e2, None)])
+            if c is not True:
+                out += seq(st.orelse, [(e2, None)])
+            return out
+        if isinstance(st, (ast.For, ast.AsyncFor, ast.While)):
+            head = st.iter if not isinstance(st, ast.While) else st.test
+            e2 = e + list(events(head))
+            out = []
+            if not (isinstance(st, ast.While) and _const_truth(st.test) is True):
+                out += seq(st.orelse, [(e2, None)])           # zero iterations
+            for ev, s in seq(st.body, [(e2, None)]):          # one iteration
+                if s in ('break',):
+                    out.append((ev, None))
+                elif s in ('continue', None):
+                    out += seq(st.orelse, [(ev, None)])
+                else:
+                    out.append((ev, s))
+            return out
+        if isinstance(st, (ast.With, ast.AsyncWith)):
+            e2 = list(e)
+            for it in st.items:
+                e2 += list(events(it.context_expr))
+            return seq(st.body, [(e2, None)])
+        if isinstance(st, ast.Try):
+            out = []
+            for ev, s in seq(st.body, [(e, None)]):
+                if s is None:
+                    out += seq(st.orelse, [(ev, None)])
+                else:
+                    out.append((ev, s))
+            for h in st.handlers:
+                out += seq(h.body, [(e, None)])
+            if st.finalbody:
+                fin = []
+                for ev, s in out:
+                    for ev2, s2 in seq(st.finalbody, [(ev, None)]):
+                        fin.append((ev2, s2 if s2 is not None else s))
+                out = fin
+            return out
+        if isinstance(st, (ast.FunctionDef, ast.AsyncFunctionDef, ast.ClassDef)):
+            return [(e, None)]
+        return [(e + list(events(st)), None)]
+
+    res = seq(body, [([], None)])
+    return [(e, s if s is not None else 'fall') for e, s in res]
